@@ -1,3 +1,4 @@
+import json
 """Per-property plug-ins: how cases are generated, which extra implementation runs a case
 needs, what makes a case non-trivial, which outcome disagreements the property owns."""
 import copy, json
@@ -65,6 +66,47 @@ def eval_files(w, c):
     return impl, (v or {"driver_crash": True})
 
 
+def dotted_segment_names(r, doc, p):
+    """with probability p, gives some segments names with inner dots (they are file-name stems of the partial outputs)"""
+    if not r.chance(p):
+        return
+    pool = ["ovl.title", "ovl.menu", "a.b.c", "seg.v1.0", "x.ld"]
+    ren = {}
+    for s in doc.get("segments", []):
+        if r.chance(0.6) and pool:
+            new = pool.pop(r.below(len(pool)))
+            ren[s["name"]] = new
+            s["name"] = new
+    for s in doc.get("segments", []):
+        if s.get("follows_segment") in ren:
+            s["follows_segment"] = ren[s["follows_segment"]]
+
+
+def default_cases(pid):
+    """documents that rely on the documented defaults alone: no `settings` key, an empty one, no optional field anywhere"""
+    out = []
+    base = [
+        {"segments": [{"name": "boot", "files": [{"path": "src/boot.o"}, {"path": "lib/libc.a", "kind": "archive", "subfile": "str.o"}]}]},
+        {"segments": [{"name": "boot", "fixed_vram": 0x80000400, "files": [{"path": "a.o"}]},
+                      {"name": "main", "files": [{"path": "b.o"}, {"kind": "pad", "pad_amount": 16, "section": ".data"}]}]},
+    ]
+    k = 0
+    for d in base:
+        for st in (None, {}, {"target_path": "rom.elf", "d_path": "rom.d", "symbols_header_path": "syms.h"}):
+            for mode in ("normal", "partial"):
+                doc = json.loads(json.dumps(d))
+                if st is not None:
+                    doc["settings"] = dict(st)
+                if mode == "partial":
+                    if st is None:
+                        continue
+                    doc["settings"].update({"partial_scripts_folder": "ps", "partial_build_segments_folder": "pb"})
+                out.append({"id": "dflt%d" % k, "seed": 7 + k, "stream": "valid", "opts": [], "mode": mode, "version_comment": k % 2 == 0,
+                            "link": mode == "normal", "doc": doc})
+                k += 1
+    return out
+
+
 class Property:
     pid = "C00"
     title = ""
@@ -88,6 +130,10 @@ class Property:
     def extra_cases(self, tier):
         """deterministic cases run before the random ones (lattices, corpus)"""
         return []
+
+    def adapt(self, c):
+        """fits a generic corpus / defaults case to what this property's evaluation needs; None drops it"""
+        return c
 
     def nontrivial(self, c):
         return True
@@ -292,6 +338,7 @@ class C12(Property):
         return Profile(dpath=1.0, p_archive=0.4, p_cond=0.4, p_group=0.35, p_braces=0.4)
 
     def tweak(self, r, c):
+        dotted_segment_names(r, c["doc"], 0.12)
         # repeat a path now and then
         fs = [f for f in all_files(c["doc"]) if "path" in f]
         if len(fs) >= 2 and r.chance(0.5):
@@ -412,6 +459,7 @@ class C07(Property):
                        p_cond=0.15, p_pad=0.05, p_offset=0.05)
 
     def tweak(self, r, c):
+        dotted_segment_names(r, c["doc"], 0.12)
         # sprinkle awkward components
         fs = [f for f in all_files(c["doc"])]
         for f in fs:
@@ -891,6 +939,12 @@ class C15(Property):
         if not impl.get("repeat_same", True):
             res.update(status="violation", why="repeated generation in one process gave different outputs")
             return res
+        # one parsed Document reused: every value changed, these options, changed again, these options again
+        other = [[k, v + "_x"] for k, v in c["opts"]]
+        impl_r = w.h.run(impl_request(dict(c, repeat=1, reuse_opts=other)))
+        if impl_r.get("outcome") == "ok" and not impl_r.get("reuse_same", True):
+            res.update(status="violation", why="generating again from the same parsed document, after a generation with other option values in between, gave different outputs")
+            return res
         if not hasattr(w, "extra_h"):
             w.extra_h = [run.Harness(), run.Harness()]
         for k, h in enumerate(w.extra_h):
@@ -1102,7 +1156,14 @@ class C20(Property):
     def profile(self, r):
         return Profile(dpath=0.7, header=0.7, p_partial=0.4, p_missing_key=0.04, max_segments=3, max_files=3, p_braces=0.4)
 
+    def adapt(self, c):
+        c.setdefault("cli_opts", [])
+        c.setdefault("cli_long", [])
+        c.setdefault("prior", "absent")
+        return c
+
     def tweak(self, r, c):
+        dotted_segment_names(r, c["doc"], 0.25)
         # spell the options as CLI arguments
         pairs = [list(p) for p in c["opts"]]
         if r.chance(0.3) and pairs:
@@ -1452,6 +1513,9 @@ class C11(Property):
     pid = "C11"
     title = "partial linking equals one-step linking"
     owns_errors = ("MissingRequiredField",)
+
+    def adapt(self, c):
+        return c if c["mode"] == "partial" else None
     quick_n = 300
     thorough_n = 8000
     link_every = 4
@@ -1466,6 +1530,7 @@ class C11(Property):
                        p_offset=0.15, p_section_order=0.3, p_subgroups=0.4, p_cond=0.35, dpath=0.2, header=0.2, max_segments=4)
 
     def tweak(self, r, c):
+        dotted_segment_names(r, c["doc"], 0.12)
         c["mode"] = "partial"
         st = c["doc"].setdefault("settings", {})
         st.setdefault("partial_scripts_folder", "ps")
